@@ -101,6 +101,7 @@ type sys struct {
 	ident    byte
 	waits    int
 	wrapped  bool // the "id-wrap" op has been used
+	cancel   context.CancelFunc // ends the server's receive loop
 	t0       time.Time // virtual time at the start of the execution (reference for absolute timestamps)
 	hist     []string
 	viols    []explore.Viol
@@ -123,7 +124,12 @@ func newSys(c cfg) *sys {
 		}
 		srv.SetRADIUSClient(rc)
 	}
-	return &sys{c: c, srv: srv, t0: time.Now(), sidOf: map[string]uint16{}, owner: map[uint16]string{}, authOK: map[uint16]bool{}, cookieOf: map[string][]byte{}}
+	// Frames reach the server the way they do in production: through the real
+	// receiveLoop reading from a (capturing, in-memory) raw socket into its own
+	// reused buffer.
+	ctx, cancel := context.WithCancel(context.Background())
+	srv.VerifC04StartReceiveLoop(ctx)
+	return &sys{c: c, srv: srv, cancel: cancel, t0: time.Now(), sidOf: map[string]uint16{}, owner: map[uint16]string{}, authOK: map[uint16]bool{}, cookieOf: map[string][]byte{}}
 }
 
 func (s *sys) v(kind, site, f string, a ...any) {
@@ -170,6 +176,25 @@ func pap(id byte, user, pass string) []byte {
 	d = append(d, byte(len(pass)))
 	d = append(d, pass...)
 	return cp(1, id, d)
+}
+
+// rx puts one frame on the wire (Ethernet header: server MAC or broadcast as
+// destination, the station's MAC as source) and returns when the receive loop has
+// handled it and is blocked in recv again. A handler that waits (RADIUS timeouts)
+// makes virtual time pass here.
+func (s *sys) rx(etherType uint16, src net.HardwareAddr, payload []byte) {
+	dst := serverMAC
+	if len(payload) > 1 && etherType == pppoe.EtherTypePPPoEDiscovery && payload[1] == pppoe.CodePADI {
+		dst = net.HardwareAddr{0xff, 0xff, 0xff, 0xff, 0xff, 0xff}
+	}
+	s.srv.VerifC04Inject(pppoe.BuildEthernetFrame(dst, src, etherType, payload))
+	for {
+		synctest.Wait()
+		if s.srv.VerifC04ReceiveIdle() {
+			return
+		}
+		time.Sleep(250 * time.Millisecond)
+	}
 }
 
 // ---------------------------------------------------------------- alphabet
@@ -307,42 +332,42 @@ func (s *sys) Apply(op string) string {
 	papGood := false
 	switch kind {
 	case "PADI":
-		s.srv.VerifC04Discovery(src, discovery(pppoe.CodePADI, 0, tag(pppoe.TagServiceName, nil), tag(pppoe.TagHostUniq, []byte(snd))))
+		s.rx(pppoe.EtherTypePPPoEDiscovery, src, discovery(pppoe.CodePADI, 0, tag(pppoe.TagServiceName, nil), tag(pppoe.TagHostUniq, []byte(snd))))
 	case "PADR":
 		ck := s.cookieOf[snd]
 		if ck == nil {
 			ck = []byte("0123456789abcdef") // the server does not remember cookies; any 16 bytes
 		}
-		s.srv.VerifC04Discovery(src, discovery(pppoe.CodePADR, 0, tag(pppoe.TagServiceName, []byte("internet")), tag(pppoe.TagHostUniq, []byte(snd)), tag(pppoe.TagACCookie, ck)))
+		s.rx(pppoe.EtherTypePPPoEDiscovery, src, discovery(pppoe.CodePADR, 0, tag(pppoe.TagServiceName, []byte("internet")), tag(pppoe.TagHostUniq, []byte(snd)), tag(pppoe.TagACCookie, ck)))
 	case "PADR-nocookie":
-		s.srv.VerifC04Discovery(src, discovery(pppoe.CodePADR, 0, tag(pppoe.TagServiceName, []byte("internet")), tag(pppoe.TagHostUniq, []byte(snd))))
+		s.rx(pppoe.EtherTypePPPoEDiscovery, src, discovery(pppoe.CodePADR, 0, tag(pppoe.TagServiceName, []byte("internet")), tag(pppoe.TagHostUniq, []byte(snd))))
 	case "PADT":
-		s.srv.VerifC04Discovery(src, discovery(pppoe.CodePADT, sid))
+		s.rx(pppoe.EtherTypePPPoEDiscovery, src, discovery(pppoe.CodePADT, sid))
 	case "LCP-CR":
-		s.srv.VerifC04Session(src, session(sid, pppoe.ProtocolLCP, cp(1, s.ident, append(opt(1, 0x05, 0xd4), opt(5, 0xaa, 0xbb, 0xcc, 0xdd)...))))
+		s.rx(pppoe.EtherTypePPPoESession, src, session(sid, pppoe.ProtocolLCP, cp(1, s.ident, append(opt(1, 0x05, 0xd4), opt(5, 0xaa, 0xbb, 0xcc, 0xdd)...))))
 	case "LCP-Ack":
-		s.srv.VerifC04Session(src, session(sid, pppoe.ProtocolLCP, cp(2, 1, nil)))
+		s.rx(pppoe.EtherTypePPPoESession, src, session(sid, pppoe.ProtocolLCP, cp(2, 1, nil)))
 	case "LCP-Nak":
-		s.srv.VerifC04Session(src, session(sid, pppoe.ProtocolLCP, cp(3, 1, opt(1, 0x05, 0x78))))
+		s.rx(pppoe.EtherTypePPPoESession, src, session(sid, pppoe.ProtocolLCP, cp(3, 1, opt(1, 0x05, 0x78))))
 	case "LCP-TR":
-		s.srv.VerifC04Session(src, session(sid, pppoe.ProtocolLCP, cp(5, s.ident, nil)))
+		s.rx(pppoe.EtherTypePPPoESession, src, session(sid, pppoe.ProtocolLCP, cp(5, s.ident, nil)))
 	case "LCP-Echo":
-		s.srv.VerifC04Session(src, session(sid, pppoe.ProtocolLCP, cp(9, s.ident, []byte{0xaa, 0xbb, 0xcc, 0xdd})))
+		s.rx(pppoe.EtherTypePPPoESession, src, session(sid, pppoe.ProtocolLCP, cp(9, s.ident, []byte{0xaa, 0xbb, 0xcc, 0xdd})))
 	case "PAP-good":
 		papGood = true
-		s.srv.VerifC04Session(src, session(sid, pppoe.ProtocolPAP, pap(s.ident, "alice", "good")))
+		s.rx(pppoe.EtherTypePPPoESession, src, session(sid, pppoe.ProtocolPAP, pap(s.ident, "alice", "good")))
 	case "PAP-bad":
-		s.srv.VerifC04Session(src, session(sid, pppoe.ProtocolPAP, pap(s.ident, "alice", "bad")))
+		s.rx(pppoe.EtherTypePPPoESession, src, session(sid, pppoe.ProtocolPAP, pap(s.ident, "alice", "bad")))
 	case "IPCP-CR(0)":
-		s.srv.VerifC04Session(src, session(sid, pppoe.ProtocolIPCP, cp(1, s.ident, opt(3, 0, 0, 0, 0))))
+		s.rx(pppoe.EtherTypePPPoESession, src, session(sid, pppoe.ProtocolIPCP, cp(1, s.ident, opt(3, 0, 0, 0, 0))))
 	case "IPCP-CR(assigned)":
-		s.srv.VerifC04Session(src, session(sid, pppoe.ProtocolIPCP, cp(1, s.ident, opt(3, s.assignedIP(sid)...))))
+		s.rx(pppoe.EtherTypePPPoESession, src, session(sid, pppoe.ProtocolIPCP, cp(1, s.ident, opt(3, s.assignedIP(sid)...))))
 	case "IPCP-CR(foreign)":
-		s.srv.VerifC04Session(src, session(sid, pppoe.ProtocolIPCP, cp(1, s.ident, opt(3, foreignIP...))))
+		s.rx(pppoe.EtherTypePPPoESession, src, session(sid, pppoe.ProtocolIPCP, cp(1, s.ident, opt(3, foreignIP...))))
 	case "IPCP-Ack":
-		s.srv.VerifC04Session(src, session(sid, pppoe.ProtocolIPCP, cp(2, 1, opt(3, 10, 0, 0, 1))))
+		s.rx(pppoe.EtherTypePPPoESession, src, session(sid, pppoe.ProtocolIPCP, cp(2, 1, opt(3, 10, 0, 0, 1))))
 	case "IP":
-		s.srv.VerifC04Session(src, session(sid, pppoe.ProtocolIP, []byte{0x45, 0, 0, 20, 0, 0, 0, 0, 64, 17, 0, 0, 10, 0, 0, 2, 8, 8, 8, 8}))
+		s.rx(pppoe.EtherTypePPPoESession, src, session(sid, pppoe.ProtocolIP, []byte{0x45, 0, 0, 20, 0, 0, 0, 0, 64, 17, 0, 0, 10, 0, 0, 2, 8, 8, 8, 8}))
 	default:
 		panic("unknown op " + op)
 	}
@@ -492,7 +517,13 @@ func (s *sys) Fingerprint() string {
 	return d + "|auth=" + strings.Join(ok, ",") + fmt.Sprintf("|waits=%d,wrapped=%v", s.waits, s.wrapped)
 }
 
-func (s *sys) Check() []explore.Viol { return s.viols }
+func (s *sys) Check() []explore.Viol {
+	// end the receive loop so that the bubble can finish
+	s.cancel()
+	s.srv.VerifC04StopReceiveLoop()
+	synctest.Wait()
+	return s.viols
+}
 
 // ---------------------------------------------------------------- models
 
